@@ -713,8 +713,9 @@ func (t *Transition) emitEvents() Result {
 			result = Canceled
 		}
 
-		// a panic is not a partial auto state rejection, it cancels everything
-		if !t.IsAccepted.Load() {
+		// a panic or a timeout is not a partial auto state rejection, it cancels
+		// everything
+		if !t.IsAccepted.Load() || t.IsBroken.Load() {
 			result = Canceled
 		}
 
